@@ -13,7 +13,7 @@ def kv (toks : List String) (key : String) : Option String :=
 
 def hexNil (o : Option Bytes) : String := match o with | none => "nil" | some b => hexOrDash b
 def natDash (o : Option Nat) : String := match o with | none => "-" | some n => toString n
-def nsDash (o : Option Nat) : String := match o with | none => "-" | some ms => toString (ms * 1000000 % 2 ^ 64)
+def nsDash (o : Option Nat) : String := match o with | none => "-" | some ms => toString ((min ms 9223372036854) * 1000000)
 def nameNil (o : Option Name) : String := match o with | none => "nil" | some n => Name.toText n
 
 def optNatOf (s : String) : Option (Option Nat) := if s == "-" then some none else s.toNat?.map some
